@@ -262,11 +262,12 @@ Qed.
 
 Lemma spec_result_refl s q s' r : vec_spec_step s q = (s', r) -> cres_eqb r r = true.
 Proof.
-  unfold vec_spec_step. destruct q as [t|t|p|]; cbn [sreq].
+  unfold vec_spec_step. destruct q as [t|t|p| |]; cbn [sreq].
   - unfold s_get. destruct (alookup t (s_map s)); intros E; inversion E; subst; cbn; apply Nat.eqb_refl.
   - unfold s_del. destruct (alookup t (s_map s)); intros E; inversion E; subst; reflexivity.
   - intros E; inversion E; subst. cbn. apply Z.eqb_refl.
   - intros E; inversion E; subst. reflexivity.
+  - intros E; inversion E; subst. cbn. apply entries_eqb_refl.
 Qed.
 
 (* one critical section: a probe that misses changes nothing; a section in which the call returns has
@@ -277,7 +278,7 @@ Lemma vec_step_lin st s q p st' nxt : Rc H st s -> vec_step H st (q, p) = Some (
   | inr r => exists s', vec_spec_step s q = (s', r) /\ Rc H st' s'
   end.
 Proof.
-  intros (I & P & N) E. unfold vec_step in E. unfold vec_spec_step. destruct q as [t|t|q|]; cbn [sreq].
+  intros (I & P & N) E. unfold vec_step in E. unfold vec_spec_step. destruct q as [t|t|q| |]; cbn [sreq].
   - destruct p.
     + assert (G := get_tuple_refines H st s t (vals_eqb t) I P N (pred_is_eqb t)).
       rewrite (get_or_create_eq H t (vals_eqb t) st I (pred_is_eqb t)) in G.
@@ -297,6 +298,8 @@ Proof.
     destruct (delete_partial q st) as [n st1]. inversion E; subst. destruct G as (A & B & C & D). subst n.
     eexists. split; [reflexivity|]. split; [exact B|split; [exact C|cbn; lia]].
   - inversion E; subst. eexists. split; [reflexivity|]. split; [apply reset_inv|split; [constructor|exact N]].
+  - inversion E; subst. exists s. split; [|split; [exact I|split; [exact P|exact N]]].
+    cbn [to_result]. unfold collect. rewrite (sort_by_id_perm_eq _ _ P (inv_idnodup H _ I)). reflexivity.
 Qed.
 
 Definition v_replay (c : config vM) : Prop :=
@@ -414,6 +417,7 @@ Proof.
   - apply eqb_prop in E. subst. reflexivity.
   - apply Z.eqb_eq in E. subst. reflexivity.
   - reflexivity.
+  - apply entries_eqb_eq in E. subst. reflexivity.
 Qed.
 
 Lemma remove_nth_perm {A} (l : list A) : forall k x, nth_error l k = Some x -> Permutation (x :: remove_nth l k) l.
